@@ -47,10 +47,12 @@ func runC20(e *Env) {
 	ruleC20Dir(e)
 	ruleC20Pred(e)
 	ruleC20Support(e)
-	e.S.Floor("C20.support", 4)
+	ruleC20PanicError(e)
+	e.S.Floor("C20.support", 5)
 	for _, r := range []string{"C20.iface", "C20.dir", "C20.hooks", "C20.safe", "C20.verdict"} {
 		e.S.Floor(r, 6)
 	}
+	e.S.Floor("C20.safe", 8)
 	e.S.Floor("C20.pred", 10)
 }
 
@@ -125,6 +127,63 @@ func derivesFrom(v, x ssa.Value) bool {
 }
 
 // hasRecoverDefer: fn defers a closure that calls recover() and routes its value into the named error result.
+// recoveredError: the value stored into the error result by the deferred closure is non-nil whenever a panic was
+// recovered: the result of a function of the module that is handed the value of recover() (panicError, whose body
+// C20.safe decides: a non-nil recovered value gives a non-nil error), or an error constructed on the spot.
+func recoveredError(v ssa.Value) bool {
+	call, ok := v.(*ssa.Call)
+	if !ok {
+		return false
+	}
+	f := call.Call.StaticCallee()
+	if f == nil {
+		return false
+	}
+	switch f.String() {
+	case "fmt.Errorf", "errors.New":
+		return true
+	}
+	if !flow.InRepo(f) || f.Name() != "panicError" {
+		return false
+	}
+	for _, a := range call.Call.Args {
+		if rc, ok := a.(*ssa.Call); ok {
+			if bi, ok := rc.Call.Value.(*ssa.Builtin); ok && bi.Name() == "recover" {
+				return true
+			}
+		}
+	}
+	return false
+}
+
+// ruleC20PanicError: panicError(err, r) is err itself for r == nil and a non-nil error otherwise.
+func ruleC20PanicError(e *Env) {
+	const rule = "C20.safe"
+	fn := e.Fn(rule, "test", "panicError")
+	if fn == nil {
+		return
+	}
+	site := flow.FnName(fn)
+	for _, isNil := range []bool{true, false} {
+		construct := map[bool]string{true: "no panic", false: "panic"}[isNil]
+		o := &ordOracle{ord: map[string]int{"r|nil": map[bool]int{true: 0, false: 1}[isNil]}}
+		ev := &pred.Evaluator{Prog: e.P.SSA, GlobalInit: e.globalTables(), Oracle: o}
+		out, err := ev.Eval(fn, e.Permuted("test", "panicError", fn, func() []pred.Val { return []pred.Val{pred.Sym{Name: "err"}, pred.Sym{Name: "r"}} })())
+		switch {
+		case err != nil:
+			e.S.Unk(rule, site, construct, err.Error(), e.Pos(fn))
+		case isNil && out.Ret.String() == "err":
+			e.S.Ok(rule, site, construct, "nothing recovered ⇒ the error passed in is returned unchanged", e.Pos(fn))
+		case isNil:
+			e.S.Bad(rule, site, construct, "with nothing recovered the result is "+out.Ret.String()+", not the error passed in", e.Pos(fn), "")
+		case strings.HasPrefix(out.Ret.String(), "fmt.Errorf(") || strings.HasPrefix(out.Ret.String(), "errors.New("):
+			e.S.Ok(rule, site, construct, "a recovered value ⇒ a freshly constructed (non-nil) error", e.Pos(fn))
+		default:
+			e.S.Bad(rule, site, construct, "with a recovered value the result is "+out.Ret.String()+", which may be nil: the panic is swallowed", e.Pos(fn), "")
+		}
+	}
+}
+
 func hasRecoverDefer(fn *ssa.Function) bool {
 	for _, b := range fn.Blocks {
 		for _, in := range b.Instrs {
@@ -147,7 +206,7 @@ func hasRecoverDefer(fn *ssa.Function) bool {
 						}
 					}
 					if st, ok := cin.(*ssa.Store); ok {
-						if fv, isFree := st.Addr.(*ssa.FreeVar); isFree && types.Identical(st.Val.Type(), types.Universe.Lookup("error").Type()) {
+						if fv, isFree := st.Addr.(*ssa.FreeVar); isFree && types.Identical(st.Val.Type(), types.Universe.Lookup("error").Type()) && recoveredError(st.Val) {
 							for i, f := range cl.FreeVars {
 								if f == fv && i < len(mc.Bindings) {
 									target = mc.Bindings[i]
@@ -640,6 +699,7 @@ func verdictIn(e *Env, site, pos string, h helperSpec, fn *ssa.Function, r verdi
 		predCall := findPredCall(fn, r)
 		emptyNames := map[string]bool{"github.com/stretchr/testify/assert.Nil": true, "github.com/stretchr/testify/assert.Empty": true, "go.lstv.dev/util/test.helperAssertEmpty": true}
 		equalNames := map[string]bool{"github.com/stretchr/testify/assert.Equal": true, "go.lstv.dev/util/test.helperAssertEqual": true, "github.com/stretchr/testify/assert.EqualValues": true}
+		conditional := map[*ssa.Call]bool{} // assertions some path from the satisfied condition goes around
 		findAfterTrue := func(cond *ssa.Call, names map[string]bool) *ssa.Call {
 			var tb *ssa.BasicBlock
 			for _, rr := range *cond.Referrers() {
@@ -656,6 +716,35 @@ func verdictIn(e *Env, site, pos string, h helperSpec, fn *ssa.Function, r verdi
 				}
 				for _, in := range b.Instrs {
 					if c, ok := in.(*ssa.Call); ok && names[calleeName(&c.Call)] {
+						// on every path: leaving the region the condition's true edge dominates (towards the next
+						// case or the return) is impossible without passing the assertion's block
+						seen := map[*ssa.BasicBlock]bool{}
+						var escapes func(x *ssa.BasicBlock) bool
+						escapes = func(x *ssa.BasicBlock) bool {
+							if x == b {
+								return false
+							}
+							if !(x == tb || tb.Dominates(x)) {
+								return true
+							}
+							if seen[x] {
+								return false
+							}
+							seen[x] = true
+							if len(x.Succs) == 0 {
+								_, isRet := x.Instrs[len(x.Instrs)-1].(*ssa.Return)
+								return isRet
+							}
+							for _, s := range x.Succs {
+								if escapes(s) {
+									return true
+								}
+							}
+							return false
+						}
+						if escapes(tb) {
+							conditional[c] = true
+						}
 						return c
 					}
 				}
@@ -674,6 +763,8 @@ func verdictIn(e *Env, site, pos string, h helperSpec, fn *ssa.Function, r verdi
 			switch {
 			case emp == nil:
 				e.S.Bad("C20.verdict", site, "predicate branch", "when the predicate is satisfied the produced data/value is not asserted empty: a result alongside an expected error goes unreported"+where, e.posOf(predCall), "")
+			case conditional[emp]:
+				e.S.Bad("C20.verdict", site, "predicate branch", "the emptiness assertion on the produced data/value is skipped on some path after a satisfied predicate: a result alongside an expected error can go unreported"+where, e.posOf(emp), "")
 			case !argsWithT(emp) || !anyArg(emp, r.isData):
 				e.S.Bad("C20.verdict", site, "predicate branch", "the emptiness assertion is not applied to the produced data/value with the helper's t"+where, e.posOf(emp), "")
 			case calleeName(&emp.Call) == "github.com/stretchr/testify/assert.Nil":
@@ -693,6 +784,8 @@ func verdictIn(e *Env, site, pos string, h helperSpec, fn *ssa.Function, r verdi
 			switch {
 			case eq == nil:
 				e.S.Bad("C20.verdict", site, "plain branch", "after NoError there is no equality assertion between the case's "+expectField+" and the produced "+map[bool]string{true: "data", false: "value"}[h.marshal]+": differing results pass silently"+where, e.posOf(noErr), "")
+			case conditional[eq]:
+				e.S.Bad("C20.verdict", site, "plain branch", "the equality assertion is skipped on some path after NoError held: differing results can pass silently"+where, e.posOf(eq), "")
 			case !argsWithT(eq) || !anyArg(eq, r.isData) || !anyArg(eq, r.isExpect):
 				e.S.Bad("C20.verdict", site, "plain branch", "the equality assertion does not compare the case's "+expectField+" with the produced result on the helper's t"+where, e.posOf(eq), "")
 			case h.marshal && rawByteSlices(eq, r):
@@ -1191,6 +1284,57 @@ func ruleC20Support(e *Env) {
 			e.S.Ok(rule, site, "helper.New", "with a TypeHelper returns helper.New(value)", e.Pos(fn))
 		} else {
 			e.S.Bad(rule, site, "helper.New", "with a TypeHelper the target is not helper.New(value)", e.Pos(fn), "")
+		}
+		// every other return is the zero value of T: a target that starts out as the case's expected value would
+		// make an unmarshaler that does nothing pass the equality assertion
+		badRet, nZero := "", 0
+		for _, r := range flow.Returns(fn) {
+			vals := flow.ReturnValues(r)
+			if len(vals) != 1 {
+				continue
+			}
+			switch x := vals[0].(type) {
+			case *ssa.TypeAssert:
+				if ic, ok := x.X.(*ssa.Call); ok && newCall != nil && calleeName(&ic.Call) == "(reflect.Value).Interface" && len(ic.Call.Args) == 1 && ic.Call.Args[0] == ssa.Value(newCall) {
+					continue
+				}
+				badRet = "a type assertion on something other than the fresh allocation"
+			case *ssa.Call:
+				if x.Call.IsInvoke() && x.Call.Method.Name() == "New" && x.Call.Value == ssa.Value(helper) {
+					continue
+				}
+				badRet = "the result of " + x.Call.String()
+			case *ssa.Const:
+				nZero++ // the zero constant of T
+			case *ssa.UnOp:
+				al, ok := x.X.(*ssa.Alloc)
+				stored := !ok
+				if ok {
+					for _, rr := range *al.Referrers() {
+						if st, isSt := rr.(*ssa.Store); isSt && st.Addr == ssa.Value(al) {
+							stored = true
+						}
+					}
+				}
+				if x.Op == token.MUL && !stored {
+					nZero++
+				} else {
+					badRet = "a variable that has been assigned to"
+				}
+			default:
+				badRet = x.String()
+				if derivesFrom(vals[0], value) {
+					badRet = "the case's own value"
+				}
+			}
+		}
+		switch {
+		case badRet != "":
+			e.S.Bad(rule, site, "zero target", "without a TypeHelper and for a non-pointer T the target returned is "+badRet+", not the zero value: an unmarshaler that leaves its receiver alone is measured against the expected value it was handed", e.Pos(fn), "")
+		case nZero == 0:
+			e.S.Unk(rule, site, "zero target", "no return of the zero value of T found", e.Pos(fn))
+		default:
+			e.S.Ok(rule, site, "zero target", "every other return is the zero value of T (a declared, never assigned variable)", e.Pos(fn))
 		}
 	}
 	// ---- castToFunc: which form (T or *T) provides the interface is probed on the case value itself — for an
